@@ -449,7 +449,7 @@ func NewEnv(b memstore.Backend, name string, strict bool) *Env {
 		mode = ledgercontroller.SchemaEnforcementStrict
 	}
 	e.Ctrl = ledgercontroller.NewDefaultController(l, b.NewStore(l), parser, parser,
-		ledgercontroller.NewInterpreterNumscriptParser(nil),
+		&recParser{inner: ledgercontroller.NewInterpreterNumscriptParser(nil), env: e},
 		ledgercontroller.WithSchemaEnforcementMode(mode))
 	e.W = e.Ctrl
 	e.prev = b.Snapshot(name)
